@@ -1,2 +1,219 @@
-use crate::NativeBody;
-pub fn register(_v: &mut Vec<(&'static str, NativeBody)>) {}
+//! C28 — Role permissions form a lattice; viewers are read-only; admin-only commands.
+use crate::{check, cover, harness, NativeBody, NativeSrc, Src};
+use inputlayer::ast::{Atom, Rule};
+use inputlayer::auth::{authorize_kg_operation, authorize_statement, KgRole, Role};
+use inputlayer::statement::{
+    DeleteOp, DeletePattern, IndexCreateOptions, InsertOp, LoadMode, MetaCommand, QueryGoal,
+    SchemaDecl, Statement, TypeDecl, TypeExpr, UpdateOp,
+};
+
+pub const N_STMT: u8 = 10;
+pub const N_META: u8 = 50;
+
+fn name(b: bool) -> String {
+    // payload-dependent rules (e.g. special-casing the internal graph) would be seen
+    String::from(if b { "_internal" } else { "x" })
+}
+
+fn rule(b: bool) -> Rule {
+    Rule::new(Atom::new(name(b), Vec::new()), Vec::new())
+}
+
+/// Real `MetaCommand` for selector k in 0..50 (every variant).
+pub fn meta(k: u8, b: bool) -> MetaCommand {
+    match k {
+        0 => MetaCommand::KgShow,
+        1 => MetaCommand::KgList,
+        2 => MetaCommand::KgCreate(name(b)),
+        3 => MetaCommand::KgUse(name(b)),
+        4 => MetaCommand::KgDrop(name(b)),
+        5 => MetaCommand::RelList,
+        6 => MetaCommand::RelDescribe(name(b)),
+        7 => MetaCommand::RelDrop(name(b)),
+        8 => MetaCommand::RuleList,
+        9 => MetaCommand::RuleQuery(name(b)),
+        10 => MetaCommand::RuleShowDef(name(b)),
+        11 => MetaCommand::RuleDrop(name(b)),
+        12 => MetaCommand::RuleDropPrefix(name(b)),
+        13 => MetaCommand::RuleEdit { name: name(b), index: 0, rule_text: String::new() },
+        14 => MetaCommand::RuleClear(name(b)),
+        15 => MetaCommand::RuleRemove { name: name(b), index: 0 },
+        16 => MetaCommand::SessionList,
+        17 => MetaCommand::SessionClear,
+        18 => MetaCommand::SessionDrop(0),
+        19 => MetaCommand::SessionDropName(name(b)),
+        20 => MetaCommand::IndexList,
+        21 => MetaCommand::IndexCreate(IndexCreateOptions {
+            name: name(b),
+            relation: String::new(),
+            column: String::new(),
+            index_type: String::new(),
+            metric: None,
+            m: None,
+            ef_construction: None,
+            ef_search: None,
+        }),
+        22 => MetaCommand::IndexDrop(name(b)),
+        23 => MetaCommand::IndexStats(name(b)),
+        24 => MetaCommand::IndexRebuild(name(b)),
+        25 => MetaCommand::ClearPrefix(name(b)),
+        26 => MetaCommand::Compact,
+        27 => MetaCommand::Status,
+        28 => MetaCommand::Debug(name(b)),
+        29 => MetaCommand::Why(name(b)),
+        30 => MetaCommand::WhyFull(name(b)),
+        31 => MetaCommand::WhyNot(name(b)),
+        32 => MetaCommand::AgentMessage(name(b)),
+        33 => MetaCommand::AgentStart(name(b)),
+        34 => MetaCommand::AgentSetup(name(b)),
+        35 => MetaCommand::AgentExamples,
+        36 => MetaCommand::Help,
+        37 => MetaCommand::Quit,
+        38 => MetaCommand::Load { path: name(b), mode: if b { LoadMode::Replace } else { LoadMode::Default } },
+        39 => MetaCommand::UserList,
+        40 => MetaCommand::UserCreate { username: name(b), password: String::new(), role: String::new() },
+        41 => MetaCommand::UserDrop(name(b)),
+        42 => MetaCommand::UserPassword { username: name(b), password: String::new() },
+        43 => MetaCommand::UserRole { username: name(b), role: String::new() },
+        44 => MetaCommand::ApiKeyCreate(name(b)),
+        45 => MetaCommand::ApiKeyList,
+        46 => MetaCommand::ApiKeyRevoke(name(b)),
+        47 => MetaCommand::KgAclList(if b { Some(name(b)) } else { None }),
+        48 => MetaCommand::KgAclGrant { kg_name: name(b), username: String::new(), role: String::new() },
+        _ => MetaCommand::KgAclRevoke { kg_name: name(b), username: String::new() },
+    }
+}
+
+/// Real non-meta `Statement` for selector k in 0..10 (every variant).
+pub fn stmt(k: u8, b: bool) -> Statement {
+    match k {
+        0 => Statement::Insert(InsertOp { relation: name(b), tuples: Vec::new() }),
+        1 => Statement::Delete(DeleteOp { relation: name(b), pattern: DeletePattern::SingleTuple(Vec::new()) }),
+        2 => Statement::Update(UpdateOp { deletes: Vec::new(), inserts: Vec::new(), body: Vec::new() }),
+        3 => Statement::TypeDecl(TypeDecl { name: name(b), type_expr: TypeExpr::TypeRef(String::new()) }),
+        4 => Statement::SessionRule(rule(b)),
+        5 => Statement::Fact(rule(b)),
+        6 => Statement::Query(QueryGoal {
+            goal: Atom::new(name(b), Vec::new()),
+            body: Vec::new(),
+            order_by: Vec::new(),
+            limit: None,
+            offset: None,
+        }),
+        7 => Statement::SchemaDecl(SchemaDecl { name: name(b), columns: Vec::new(), persistent: b }),
+        8 => Statement::PersistentRule(rule(b)),
+        _ => Statement::DeleteRelationOrRule(name(b)),
+    }
+}
+
+/// Oracle tables, written from the documentation comments of `Statement` / `MetaCommand`.
+/// The matches are exhaustive without wildcard: a new variant fails to compile here.
+#[derive(PartialEq, Clone, Copy)]
+pub enum Class {
+    /// definitely changes persistent state
+    Mutating,
+    /// manages users, API keys or compaction
+    AdminOnly,
+    /// read-only, ephemeral, or not classified (nothing asserted beyond the lattice)
+    Other,
+}
+
+pub fn classify_meta(c: &MetaCommand) -> Class {
+    use MetaCommand::*;
+    match c {
+        KgShow | KgList | KgUse(_) => Class::Other,
+        KgCreate(_) | KgDrop(_) => Class::Mutating,
+        RelList | RelDescribe(_) => Class::Other,
+        RelDrop(_) => Class::Mutating,
+        RuleList | RuleQuery(_) | RuleShowDef(_) => Class::Other,
+        RuleDrop(_) | RuleDropPrefix(_) | RuleEdit { .. } | RuleClear(_) | RuleRemove { .. } => Class::Mutating,
+        SessionList | SessionClear | SessionDrop(_) | SessionDropName(_) => Class::Other,
+        IndexList | IndexStats(_) => Class::Other,
+        IndexCreate(_) | IndexDrop(_) | IndexRebuild(_) => Class::Mutating,
+        ClearPrefix(_) => Class::Mutating,
+        Compact => Class::AdminOnly,
+        Status | Debug(_) | Why(_) | WhyFull(_) | WhyNot(_) => Class::Other,
+        AgentMessage(_) | AgentStart(_) | AgentSetup(_) | AgentExamples => Class::Other,
+        Help | Quit => Class::Other,
+        Load { .. } => Class::Mutating,
+        UserList | UserCreate { .. } | UserDrop(_) | UserPassword { .. } | UserRole { .. } => Class::AdminOnly,
+        ApiKeyCreate(_) | ApiKeyList | ApiKeyRevoke(_) => Class::AdminOnly,
+        KgAclList(_) => Class::Other,
+        KgAclGrant { .. } | KgAclRevoke { .. } => Class::Mutating,
+    }
+}
+
+pub fn classify(s: &Statement) -> Class {
+    match s {
+        Statement::Meta(c) => classify_meta(c),
+        Statement::Insert(_) | Statement::Delete(_) | Statement::Update(_) => Class::Mutating,
+        Statement::PersistentRule(_) | Statement::DeleteRelationOrRule(_) => Class::Mutating,
+        Statement::SchemaDecl(d) => {
+            if d.persistent {
+                Class::Mutating
+            } else {
+                Class::Other
+            }
+        }
+        Statement::TypeDecl(_) | Statement::Fact(_) => Class::Other,
+        Statement::SessionRule(_) | Statement::Query(_) => Class::Other,
+    }
+}
+
+fn laws(s: &Statement) -> Result<(), String> {
+    let kv = authorize_kg_operation(&KgRole::Viewer, s).is_ok();
+    let ke = authorize_kg_operation(&KgRole::Editor, s).is_ok();
+    let ko = authorize_kg_operation(&KgRole::Owner, s).is_ok();
+    let gv = authorize_statement(&Role::Viewer, s).is_ok();
+    let ge = authorize_statement(&Role::Editor, s).is_ok();
+    let ga = authorize_statement(&Role::Admin, s).is_ok();
+    check!(!kv || ke, "kg lattice: viewer-ok => editor-ok");
+    check!(!ke || ko, "kg lattice: editor-ok => owner-ok");
+    check!(!gv || ge, "global lattice: viewer-ok => editor-ok");
+    check!(!ge || ga, "global lattice: editor-ok => admin-ok");
+    let c = classify(s);
+    if c == Class::Mutating || c == Class::AdminOnly {
+        check!(!kv, "kg viewer permits a statement that changes persistent state");
+    }
+    if c == Class::AdminOnly {
+        check!(!gv && !ge, "non-admin global role permits user/api-key/compaction management");
+        check!(!kv && !ke, "kg editor/viewer permits user/api-key/compaction management");
+    }
+    // a viewer on both layers (the weakest identity) can never mutate
+    if c == Class::Mutating {
+        check!(!(gv && kv), "viewer/viewer identity may change persistent state");
+    }
+    Ok(())
+}
+
+/// all 50 meta-command variants x payload bit, selector symbolic
+pub fn b_meta<S: Src>(s: &mut S) -> Result<(), String> {
+    let k = s.u8();
+    s.assume(k < N_META);
+    let b = s.bool();
+    let st = Statement::Meta(meta(k, b));
+    cover!(k == 26, "compact reached");
+    cover!(k == 49, "last variant reached");
+    let r = laws(&st);
+    std::mem::forget(st);
+    r
+}
+harness!(c28_meta, b_meta, 12);
+
+/// all 10 non-meta statement variants x payload bit
+pub fn b_stmt<S: Src>(s: &mut S) -> Result<(), String> {
+    let k = s.u8();
+    s.assume(k < N_STMT);
+    let b = s.bool();
+    let st = stmt(k, b);
+    cover!(k == 9, "last variant reached");
+    let r = laws(&st);
+    std::mem::forget(st);
+    r
+}
+harness!(c28_stmt, b_stmt, 12);
+
+pub fn register(v: &mut Vec<(&'static str, NativeBody)>) {
+    v.push(("c28_meta", b_meta::<NativeSrc>));
+    v.push(("c28_stmt", b_stmt::<NativeSrc>));
+}
